@@ -232,3 +232,204 @@ Section PutInv.
           -- exact (oall_In _ _ _ Hn1 Hc).
   Qed.
 End PutInv.
+
+(* ---------- segments: growTree and Put preserve the store invariant ---------- *)
+Definition hist_in (lvl : nat) (t : Z) (H : list write) : Prop :=
+  Forall (fun w => good_write w /\ t <= w_a w /\ w_b w <= t + pow10 lvl) H.
+
+Definition store_ok (E : store) (H : list write) (lvl : nat) (n : snode) : Prop :=
+  quiet E lvl n /\ ninv E H lvl n /\
+  (forall k, ~ under k lvl (sn_time n) -> E k = 0) /\
+  content E lvl n = W H lvl (sn_time n) /\ hist_in lvl (sn_time n) H.
+
+Definition sinv (K : Z) (s : segment) (E : store) (H : list write) : Prop :=
+  match s_root s with
+  | None => H = [] /\ forall k, E k = 0
+  | Some (lvl, n) => node_ok K lvl n /\ store_ok E H lvl n
+  end.
+
+Lemma hist_in_good lvl t H : hist_in lvl t H -> Forall good_write H.
+Proof. intros Hh. eapply Forall_impl; [|exact Hh]. cbn. tauto. Qed.
+
+Lemma W_grow H lvl t lvl' t' : hist_in lvl t H -> t' <= t -> t + pow10 lvl <= t' + pow10 lvl' ->
+  W H lvl' t' = W H lvl t.
+Proof.
+  intros Hh H1 H2. unfold W. f_equal. apply map_ext_Forall. eapply Forall_impl; [|exact Hh].
+  intros w [[G1 G2] [G3 G4]]. unfold wov, ov. f_equal. lia.
+Qed.
+
+Lemma qslots_repeat_gen (Q : snode -> Prop) (C : Z -> Prop) w : forall n t0,
+  (forall j, 0 <= j < Z.of_nat n -> C (t0 + j * w)) -> qslots Q C w t0 (repeat None n).
+Proof.
+  induction n as [|n IH]; intros t0 HC; [exact I|]. cbn [repeat qslots]. split.
+  - replace t0 with (t0 + 0 * w) by lia. apply HC. lia.
+  - apply IH. intros j Hj. replace (t0 + w + j * w) with (t0 + (j + 1) * w) by lia. apply HC. lia.
+Qed.
+
+Lemma qslots_list_set (Q : snode -> Prop) (C : Z -> Prop) w c : Q c -> forall n i ch' t0,
+  list_set i (Some c) (repeat None n) = Some ch' ->
+  (forall j, 0 <= j < Z.of_nat n -> j <> Z.of_nat i -> C (t0 + j * w)) -> qslots Q C w t0 ch'.
+Proof.
+  intros HQ. induction n as [|n IH]; intros i ch' t0 Hl HC; cbn in Hl; [discriminate|].
+  destruct i as [|i].
+  - inversion Hl; subst. cbn [qslots]. split; [exact HQ|].
+    apply qslots_repeat_gen. intros j Hj. replace (t0 + w + j * w) with (t0 + (j + 1) * w) by lia. apply HC; lia.
+  - destruct (list_set i (Some c) (repeat None n)) eqn:El; [|discriminate]. inversion Hl; subst.
+    cbn [qslots]. split.
+    + replace t0 with (t0 + 0 * w) by lia. apply HC; lia.
+    + apply (IH i); [exact El|]. intros j Hj Hne.
+      replace (t0 + w + j * w) with (t0 + (j + 1) * w) by lia. apply HC; lia.
+Qed.
+
+Lemma osum_list_set E l c : forall n i ch', list_set i (Some c) (repeat None n) = Some ch' ->
+  osum E l ch' = content E l c.
+Proof.
+  unfold osum. induction n as [|n IH]; intros i ch' Hl; cbn in Hl; [discriminate|].
+  destruct i as [|i].
+  - inversion Hl; subst. cbn [map]. rewrite sumZ_cons. cbn [ocontent].
+    assert (sumZ (map (ocontent E l) (repeat None n)) = 0); [|lia].
+    clear. induction n; cbn in *; [reflexivity|]. unfold sumZ in *. cbn. exact IHn.
+  - destruct (list_set i (Some c) (repeat None n)) eqn:El; [|discriminate]. inversion Hl; subst.
+    cbn [map]. rewrite sumZ_cons. cbn [ocontent]. rewrite (IH _ _ El). lia.
+Qed.
+
+Lemma grow_step_store K E H lvl n root1 : node_ok K lvl n -> store_ok E H lvl n ->
+  sn_replace lvl (SNode (trunc_to (S lvl) (sn_time n)) false (sn_samples n) (sn_writes n) (repeat None 10)) n = Some root1 ->
+  store_ok E H (S lvl) root1.
+Proof.
+  intros (Hl & Hwf & Htwo & Hblk) (Hq & Hn & Hout & Hroot & Hh) Hrep.
+  pose proof (wf_time_mod _ _ Hwf) as Hm.
+  pose proof (replace_idx_grid lvl (sn_time n) Hm) as Hidx. cbv zeta in Hidx.
+  unfold sn_replace in Hrep. set (T := trunc_to (S lvl) (sn_time n)) in *.
+  set (i := replace_idx lvl T (sn_time n)) in *. destruct Hidx as [Hi Ht].
+  replace (i <? 0) with false in Hrep by lia.
+  destruct (list_set (Z.to_nat i) (Some n) (repeat None 10)) as [ch'|] eqn:El; [|discriminate].
+  inversion Hrep; subst root1. clear Hrep.
+  pose proof (pow10_pos lvl) as Hp. pose proof (pow10_S lvl) as HS.
+  assert (HW : W H (S lvl) T = W H lvl (sn_time n)) by (apply (W_grow H lvl (sn_time n)); [exact Hh|nia|nia]).
+  assert (Hcont : content E (S lvl) (SNode T false (sn_samples n) (sn_writes n) ch') = content E lvl n).
+  { cbn [content]. fold (ocontent E lvl). fold (osum E lvl ch'). eapply osum_list_set. exact El. }
+  assert (HE0 : forall k, ~ under k lvl (sn_time n) -> E k = 0) by exact Hout.
+  unfold store_ok. cbn [sn_time]. split; [|split; [|split; [|split]]].
+  - cbn [quiet]. split.
+    + intros _. apply HE0. unfold under. cbn. lia.
+    + eapply qslots_list_set; [exact Hq|exact El|].
+      intros j Hj Hne k Hk. apply HE0. rewrite Z2Nat.id in Hne by lia. unfold under in *. nia.
+  - cbn [ninv]. rewrite Hcont, HW, <- Hroot.
+    pose proof (hist_in_good _ _ _ Hh) as HG. pose proof (W_nonneg H lvl (sn_time n) HG).
+    split; [lia|]. split; [discriminate|]. split; [discriminate|].
+    eapply list_set_oall; [exact Hn|exact El].
+  - intros k Hk. apply HE0. intros Hu. apply Hk. unfold under in *. nia.
+  - rewrite Hcont, HW. exact Hroot.
+  - eapply Forall_impl; [|exact Hh]. intros w0 (G1 & G2 & G3). split; [exact G1|]. nia.
+Qed.
+
+Lemma grow_loop_store K E H a b : forall fuel lvl n, node_ok K lvl n -> store_ok E H lvl n ->
+  (forall lvl' n', node_ok K lvl' n' -> True) ->
+  a < b -> K * pow10 8 <= a -> b <= (K + 1) * pow10 8 -> fuel = (8 - lvl)%nat ->
+  let '(lvl', n') := s_grow_loop fuel a b lvl n in store_ok E H lvl' n'.
+Proof.
+  induction fuel as [|f IH]; intros lvl n Hok Hst _ Hab Ha Hb Hf; cbn [s_grow_loop].
+  - destruct (relationship _ _ a b); exact Hst.
+  - destruct (relationship _ _ a b); try exact Hst;
+      (destruct (sn_replace lvl _ n) as [root1|] eqn:Er; [|exact Hst];
+       pose proof (grow_step_store K E H lvl n root1 Hok Hst Er) as Hst1;
+       assert (Hok1 : node_ok K (S lvl) root1);
+       [ destruct Hok as (Hl & Hwf & Htwo & Hblk);
+         pose proof (wf_time_mod _ _ Hwf) as Hm;
+         pose proof (replace_idx_grid lvl (sn_time n) Hm) as Hidx; cbv zeta in Hidx;
+         unfold sn_replace in Er;
+         destruct Hidx as [Hi Ht];
+         replace (replace_idx lvl (trunc_to (S lvl) (sn_time n)) (sn_time n) <? 0) with false in Er by lia;
+         destruct (list_set _ (Some n) (repeat None 10)) as [ch'|] eqn:El; [|discriminate];
+         inversion Er; subst root1;
+         destruct Hblk as [Hb1 Hb2]; pose proof (pow10_pos lvl);
+         pose proof (block_trunc (S lvl) K (sn_time n) ltac:(lia) ltac:(lia)) as [Hc1 Hc2];
+         split; [lia|]; split; [|split];
+         [ cbn [wf]; split; [apply trunc_to_mod|]; split;
+           [ rewrite (list_set_length _ _ _ _ El); apply repeat_length
+           | eapply list_set_repeat_slots; [exact Hwf|exact El|]; rewrite Z2Nat.id by lia; exact Ht ]
+         | cbn [two]; split;
+           [ intros H2; rewrite (list_set_count_one _ _ _ _ El) in H2; lia
+           | eapply list_set_oall; [exact Htwo|exact El] ]
+         | split; cbn [sn_time]; lia ]
+       | specialize (IH (S lvl) root1 Hok1 Hst1 (fun _ _ _ => I) Hab Ha Hb ltac:(lia));
+         destruct (s_grow_loop f a b (S lvl) root1); exact IH ]).
+Qed.
+
+Lemma s_grow_store K a b s E H : valid_range K a b -> sinv K s E H ->
+  match s_root (s_grow a b s) with
+  | Some (lvl, n) => node_ok K lvl n /\ store_ok E H lvl n /\ sn_time n <= a /\ b <= sn_time n + pow10 lvl
+  | None => False
+  end.
+Proof.
+  intros Hv Hs. pose proof Hv as (Hab & Ha & Hb).
+  assert (Hsok : seg_ok K s).
+  { unfold sinv, seg_ok in *. destruct (s_root s) as [[lvl n]|]; [apply Hs|exact I]. }
+  pose proof (s_grow_ok_holds K a b s Hv Hsok) as G.
+  unfold s_grow, sinv in *. destruct (s_root s) as [[lvl n]|]; cbn [s_root] in *.
+  - destruct Hs as [Hok Hst]. pose proof (pow10_pos lvl).
+    destruct Hok as (Hl & Hwf & Htwo & Hb1 & Hb2).
+    pose proof (grow_loop_store K E H (Z.min a (sn_time n)) (Z.max b (sn_time n + pow10 lvl))
+                  (max_level - lvl)%nat lvl n (conj Hl (conj Hwf (conj Htwo (conj Hb1 Hb2)))) Hst (fun _ _ _ => I)
+                  ltac:(lia) ltac:(lia) ltac:(lia) eq_refl) as GS.
+    destruct (s_grow_loop _ _ _ lvl n) as [lvl' n']. destruct G as (G1 & G2 & G3). auto.
+  - destruct Hs as [HH HE]. subst H.
+    assert (Hn : node_ok K 0 (new_node a 0)).
+    { split; [unfold max_level; lia|]. split; [apply wf_new_node; change (pow10 0) with 1; apply Z.mod_1_r|].
+      split; [apply two_new_node|]. unfold in_blk. cbn [new_node sn_time]. change (pow10 0) with 1. lia. }
+    assert (Hst : store_ok E [] 0 (new_node a 0)).
+    { split; [apply quiet_new_node; intros k _; apply HE|].
+      split; [apply ninv_new_node; constructor|].
+      split; [intros k _; apply HE|]. split; [rewrite content_new_node; reflexivity|constructor]. }
+    pose proof (grow_loop_store K E [] a b max_level 0%nat (new_node a 0) Hn Hst (fun _ _ _ => I) Hab Ha Hb eq_refl) as GS.
+    destruct (s_grow_loop _ _ _ _ _) as [lvl' n']. destruct G as (G1 & G2 & G3). auto.
+Qed.
+
+Definition mk_write (a b : Z) (smp : N) (beta : Z) : write := {| w_a := a; w_b := b; w_smp := smp; w_beta := beta |}.
+
+Lemma s_put_store K a b smp beta s E H : valid_range K a b -> 0 <= beta -> sinv K s E H ->
+  sinv K (fst (s_put a b smp s)) (apply_cbs beta E (snd (s_put a b smp s))) (mk_write a b smp beta :: H).
+Proof.
+  intros Hv Hbeta Hs. pose proof Hv as (Hab & Ha & Hb).
+  pose proof (s_grow_store K a b s E H Hv Hs) as G. unfold s_put.
+  destruct (s_root (s_grow a b s)) as [[lvl n]|]; [|contradiction].
+  destruct G as ((Hl & Hwf & Htwo & Hb1 & Hb2) & (Hq & Hn & Hout & Hroot & Hh) & Hin1 & Hin2).
+  pose proof (hist_in_good _ _ _ Hh) as HG.
+  pose proof (put_delta a b smp beta Hab Hbeta lvl n E Hwf Hq) as (D1 & D2 & _ & _). cbv zeta in D1, D2.
+  pose proof (put_ninv a b smp beta H Hab Hbeta HG lvl n E Hwf Hq Hn) as PN.
+  pose proof (put_local lvl a b smp n Hwf) as PL.
+  pose proof (put_node_wf lvl a b smp n Hwf) as Hwf'. pose proof (put_node_two lvl a b smp n Htwo) as Htwo'.
+  pose proof (put_node_time lvl a b smp n) as Ht'.
+  destruct (s_put_node lvl a b smp n) as [n' cbs]. cbn [fst snd] in *.
+  unfold sinv. cbn [s_root]. split.
+  - split; [exact Hl|]. split; [exact Hwf'|]. split; [exact Htwo'|]. unfold in_blk. lia.
+  - unfold store_ok. rewrite Ht'. split; [exact D1|]. split; [exact PN|]. split; [|split].
+    + intros k Hk. rewrite (apply_cbs_frame beta lvl (sn_time n)); [apply Hout; exact Hk|exact PL|exact Hk].
+    + rewrite D2, Hroot, W_cons. unfold wov, mk_write. cbn [w_a w_b w_beta]. lia.
+    + constructor; [|exact Hh]. unfold good_write, mk_write. cbn [w_a w_b w_beta]. repeat split; lia.
+Qed.
+
+(* ---------- histories ---------- *)
+Lemma run_sinv K : forall ws s E H, Forall (valid_write K) ws -> sinv K s E H ->
+  let sE := fold_left put_step ws (s, E) in sinv K (fst sE) (snd sE) (rev ws ++ H).
+Proof.
+  induction ws as [|w ws IH]; intros s E H Hv Hs; cbn [fold_left rev app]; [exact Hs|].
+  inversion Hv as [|w0 ws0 [Hw1 Hw2] Hvs]; subst.
+  pose proof (s_put_store K (w_a w) (w_b w) (w_smp w) (w_beta w) s E H Hw1 Hw2 Hs) as Hstep.
+  assert (Heq : put_step (s, E) w = (fst (s_put (w_a w) (w_b w) (w_smp w) s),
+                                     apply_cbs (w_beta w) E (snd (s_put (w_a w) (w_b w) (w_smp w) s)))).
+  { unfold put_step. cbn [fst snd]. destruct (s_put (w_a w) (w_b w) (w_smp w) s). reflexivity. }
+  rewrite Heq.
+  specialize (IH _ _ _ Hvs Hstep).
+  cbv zeta in IH. rewrite <- app_assoc. cbn [app].
+  replace (mk_write (w_a w) (w_b w) (w_smp w) (w_beta w)) with w in IH by (destruct w; reflexivity).
+  exact IH.
+Qed.
+
+Lemma run_writes_sinv K ws : Forall (valid_write K) ws ->
+  sinv K (fst (run_writes ws)) (snd (run_writes ws)) (rev ws).
+Proof.
+  intros Hv. pose proof (run_sinv K ws s_empty store0 [] Hv) as G.
+  rewrite app_nil_r in G. apply G. unfold sinv. cbn. split; [reflexivity|reflexivity].
+Qed.
